@@ -385,6 +385,19 @@ func runCase1(input string) string {
 
 	hd, hcfg := readCfg(hp)
 	yd, ycfg := readCfg(yp)
+	if co == "par" {
+		// while the companions are being decoded the same file must keep decoding to the same thing
+		for j := 0; j < 4; j++ {
+			if hd2, hcfg2 := readCfg(hp); hd2 != hd {
+				hd, hcfg = hd2, hcfg2
+				break
+			}
+			if yd2, ycfg2 := readCfg(yp); yd2 != yd {
+				yd, ycfg = yd2, ycfg2
+				break
+			}
+		}
+	}
 	ytok := yd
 	if yd == hd {
 		ytok = "="
@@ -1121,7 +1134,7 @@ func nameTokens(r *rand.Rand) string {
 func generate(r *rand.Rand, tier string) []string {
 	n := 1500
 	if tier == "thorough" {
-		n = 60000
+		n = 45000
 	}
 	g := &gen{r: r}
 	var out []string
